@@ -102,11 +102,39 @@ Script(st, sd, t, n) ==
                stamp |-> st.now, tok |-> st.nid]>>
             \o Script(s1, sd, t + 1, n)
 
+PathSet == {AllPaths[i] : i \in 1..19}
+(* C03: fixed scenarios around one write command with an injected failure class ("" none / short count,
+   "open", "io" = a write or the close fails).  n lines are appended and saved to f1, one more line makes the
+   buffer modified, then the command under test, a quit (refused after a failure), a forced retry, a quit. *)
+W(path, force, fault) == [k |-> "w", path |-> path, whole |-> TRUE, beg |-> 0, end |-> 0, force |-> force, fault |-> fault]
+Under(kind, fault) == CASE kind = "w"   -> W("", FALSE, fault)
+                        [] kind = "w!"  -> W("", TRUE, fault)
+                        [] kind = "wf"  -> W("f2", FALSE, fault)        \* to another, new path
+                        [] kind = "wq"  -> [k |-> "wq", force |-> FALSE, fault |-> fault]
+                        [] kind = "x"   -> [k |-> "x", force |-> FALSE, fault |-> fault]
+FaultScript(n, kind, fault) ==
+    (IF n = 0 THEN <<[k |-> "e", path |-> "f1", force |-> FALSE], W("", FALSE, "")>>
+     ELSE <<[k |-> "e", path |-> "f1", force |-> FALSE], [k |-> "a", n |-> n], W("", FALSE, "")>>)
+    \o (IF n = 0 /\ kind \notin {"wf"} THEN <<>> ELSE <<[k |-> "a", n |-> 1]>>)
+    \o <<Under(kind, fault), [k |-> "q", force |-> FALSE, fault |-> ""], W("", TRUE, ""), [k |-> "q", force |-> FALSE, fault |-> ""]>>
+RECURSIVE RunFixed(_, _, _)
+RunFixed(st, cs, t) ==
+    IF t > Len(cs) \/ st.quit THEN <<>>
+    ELSE LET c == cs[t]  s1 == Step(st, c) IN
+         <<[cmd |-> c, typed |-> Typed(st, c), exp |-> Proj(s1), thm |-> IF Thm(st, c, s1) THEN 1 ELSE 0,
+            disk |-> IF s1.quit \/ t = Len(cs) THEN DiskProj(s1) ELSE [x \in {} |-> 0], stamp |-> st.now, tok |-> st.nid]>>
+         \o RunFixed(s1, cs, t + 1)
+FaultTable == LET ns == <<0, 1, 520, 1500>>  kinds == <<"w", "w!", "wf", "wq", "x">>  fs == <<"", "open", "io">> IN
+              [i \in 1..(4 * 5 * 3) |->
+                  LET n == ns[((i - 1) \div 15) + 1]  kind == kinds[(((i - 1) \div 3) % 5) + 1]  f == fs[((i - 1) % 3) + 1] IN
+                  [seed |-> -i, n |-> n, kind |-> kind, fault |-> f,
+                   steps |-> RunFixed(NewState(PathSet, 16), FaultScript(n, kind, f), 1)]]
+
 Seed0 == EnvN("SEED0", 1)
 NScripts == EnvN("NSCRIPTS", 4)
 NSteps == EnvN("NSTEPS", 30)
-PathSet == {AllPaths[i] : i \in 1..19}
-Table == [k \in 1..NScripts |-> [seed |-> Seed0 + k - 1,
+Table == IF Env("MODE", "") = "faults" THEN FaultTable ELSE
+         [k \in 1..NScripts |-> [seed |-> Seed0 + k - 1,
                                  steps |-> Script(NewState(PathSet, 16), Seed0 + k - 1, 1, NSteps)]]
 Init == dummy = 0 /\ ndJsonSerialize(Env("OUT", "/tmp/gen_bufs.ndjson"), Table)
 Next == UNCHANGED dummy
